@@ -50,10 +50,11 @@ def gen_spec(r, i, stream):
 
 
 def known_specs():
-    """the inputs of the recorded findings, replayed on every run"""
+    """the inputs of the recorded findings, replayed on every run (open: expected to fail; fixed:
+    suppress nothing and must pass)"""
     out = []
     for e in common.load_known_findings('C18'):
-        if e.get('status') == 'open' and isinstance(e.get('input'), dict) and 'ops' in e['input']:
+        if e.get('status') in ('open', 'fixed') and isinstance(e.get('input'), dict) and 'ops' in e['input']:
             out.append(e['input'])
     return out
 
@@ -134,9 +135,9 @@ def main():
             okf, logf = common.coqc_file(os.path.join(common.COQ, 'findings', name + '.v'))
             ck.extra[f'finding_{name}_refutation_compiles'] = okf
             if not okf:
-                ck.notes.append(f'findings/{name}.v no longer compiles (the recorded defect may have been repaired): '
+                ck.notes.append(f'findings/{name}.v (historical, about the pre-fix facts) does not compile: '
                                 + common.first_error(logf)['error'][:200])
-    n = 1000 if ck.thorough() else 60
+    n = 500 if ck.thorough() else 60
     specs = known_specs()
     r = ck.rng('scenarios')
     for stream in ('a', 'b'):
@@ -156,8 +157,9 @@ def main():
                        'torch optimiser update rules (epoch losses and parameters are oracle data), inspect.getsourcelines'],
         assumptions=['n_batches_valid > 0 and a non-closure optimiser (best tracking follows the validation loss)',
                      'load with the default SolverConfig()',
-                     'full-strength save_preserves / load_save_solutions / resume_best are refuted on the unchanged tree '
-                     '(findings/F_C18_save.v, F_C18_load.v); proved: the *_partial theorems of props/P_C18.v'])
+                     'all statements at full strength since fixes 90081b1, 02ac05f, 446840b; findings/F_C18_save.v, F_C18_load.v keep '
+                     'the refutations for the facts of the old tree (written out by hand)',
+                     'not in the model (outside the property\'s list): n_batches and custom-metric histories are not restored by load'])
 
 
 if __name__ == '__main__':
